@@ -5,6 +5,11 @@
 //! `C11.rand <bdd> <flips> => random_valuation random_clause`   (each call gets a fresh `CoinRng` over the same flips)
 //! `C11.nc <bdd> => …` / `C11.ncrand <bdd> <flips> => …`        same observations on a valid but NON-canonical diagram
 //!                   (model correspondence only: the property is about canonical diagrams)
+//! `C11.op <n> <op> <args…> => <result> <the twelve observations of C11.sel on the result>`
+//! `C11.oprand <n> <op> <args…> <flips> => <result> random_valuation random_clause`
+//!                   the operand of the selectors is the RESULT of a library operation computed here by the real library
+//!                   (`apply_op`; replay recomputes it); `<n>` is the variable count the result must have; the result is
+//!                   printed with `fmt_bdd`, `oppanic` if the operation itself panicked (then nothing else is observed)
 //! An `Option` result is printed as the value or `none`, a panic as `panic`.
 #[path = "../common.rs"]
 mod common;
@@ -25,35 +30,116 @@ fn show_bool(r: Option<bool>) -> String {
 }
 fn parse_flips(x: &str) -> Vec<bool> { if x == "~" { vec![] } else { x.chars().map(|c| c == '1').collect() } }
 
+fn observe_sel(b: &Bdd, n: usize) -> Vec<String> {
+    vec![
+        show_val(catch(|| b.sat_witness())),
+        show_val(catch(|| b.first_valuation())),
+        show_val(catch(|| b.last_valuation())),
+        show_val(catch(|| b.most_positive_valuation())),
+        show_val(catch(|| b.most_negative_valuation())),
+        show_clause(catch(|| b.first_clause()), n),
+        show_clause(catch(|| b.last_clause()), n),
+        show_clause(catch(|| b.most_fixed_clause()), n),
+        show_clause(catch(|| b.most_free_clause()), n),
+        show_clause(catch(|| b.necessary_clause()), n),
+        show_bool(catch(|| b.is_clause())),
+        show_bool(catch(|| b.is_valuation())),
+    ]
+}
+fn observe_rand(b: &Bdd, n: usize, flips: &[bool]) -> Vec<String> {
+    let rv = catch(|| { let mut r = CoinRng::new(flips.to_vec()); b.random_valuation(&mut r) });
+    let rc = catch(|| { let mut r = CoinRng::new(flips.to_vec()); b.random_clause(&mut r) });
+    vec![show_val(rv), show_clause(rc, n)]
+}
+
+fn parse_vars(x: &str) -> Vec<BddVariable> {
+    if x == "~" { vec![] } else { x.split(',').map(|t| var(t.parse().unwrap())).collect() }
+}
+/// `0=1,2=0`
+fn parse_lits(x: &str) -> Vec<(BddVariable, bool)> {
+    if x == "~" { vec![] } else {
+        x.split(',').map(|t| { let mut p = t.split('='); (var(p.next().unwrap().parse().unwrap()), p.next().unwrap() == "1") }).collect()
+    }
+}
+/// `0>1,1>2`
+fn parse_perm(x: &str) -> std::collections::HashMap<BddVariable, BddVariable> {
+    let mut m = std::collections::HashMap::new();
+    if x != "~" {
+        for t in x.split(',') { let mut p = t.split('>'); m.insert(var(p.next().unwrap().parse().unwrap()), var(p.next().unwrap().parse().unwrap())); }
+    }
+    m
+}
+
+/// The library operation whose RESULT the selectors are run on. Operands are oracle-built text forms.
+fn apply_op(op: &str, a: &[String]) -> Bdd {
+    let bdd = |i: usize| Bdd::from_string(&a[i]);
+    match op {
+        "subst" => bdd(0).substitute(var(a[1].parse().unwrap()), &bdd(2)),
+        "setnv" => {
+            // a clone goes through `set_num_vars` once per listed value
+            let mut b = bdd(0);
+            for m in a[1].split(',') { unsafe { b.set_num_vars(m.parse().unwrap()); } }
+            b
+        }
+        "rename" => { let mut b = bdd(0); unsafe { b.rename_variable(var(a[1].parse().unwrap()), var(a[2].parse().unwrap())); } b }
+        "renames" => { let mut b = bdd(0); unsafe { b.rename_variables(&parse_perm(&a[1])); } b }
+        "exists" => bdd(0).exists(&parse_vars(&a[1])),
+        "forall" => bdd(0).for_all(&parse_vars(&a[1])),
+        "varexists" => bdd(0).var_exists(var(a[1].parse().unwrap())),
+        "varforall" => bdd(0).var_for_all(var(a[1].parse().unwrap())),
+        "restrict" => bdd(0).restrict(&parse_lits(&a[1])),
+        "select" => bdd(0).select(&parse_lits(&a[1])),
+        "pick" => bdd(0).pick(&parse_vars(&a[1])),
+        "not" => bdd(0).not(),
+        "and" => bdd(0).and(&bdd(1)),
+        "or" => bdd(0).or(&bdd(1)),
+        "xor" => bdd(0).xor(&bdd(1)),
+        "imp" => bdd(0).imp(&bdd(1)),
+        "iff" => bdd(0).iff(&bdd(1)),
+        "and_not" => bdd(0).and_not(&bdd(1)),
+        "ite" => Bdd::if_then_else(&bdd(0), &bdd(1), &bdd(2)),
+        "fromval" => Bdd::from(BddValuation::new(parse_flips(&a[0]))),
+        "exactlyk" => BddVariableSet::new_anonymous(a[0].parse().unwrap()).mk_sat_exactly_k(a[1].parse().unwrap(), &parse_vars(&a[2])),
+        "uptok" => BddVariableSet::new_anonymous(a[0].parse().unwrap()).mk_sat_up_to_k(a[1].parse().unwrap(), &parse_vars(&a[2])),
+        _ => panic!("unknown op {}", op),
+    }
+}
+
 pub fn run(key: &str, a: &[String], out: &mut Out) {
     out.begin(key, a);
     match key {
         "C11.sel" | "C11.nc" => {
             let b = Bdd::from_string(&a[0]);
             let n = b.num_vars() as usize;
-            let obs = vec![
-                show_val(catch(|| b.sat_witness())),
-                show_val(catch(|| b.first_valuation())),
-                show_val(catch(|| b.last_valuation())),
-                show_val(catch(|| b.most_positive_valuation())),
-                show_val(catch(|| b.most_negative_valuation())),
-                show_clause(catch(|| b.first_clause()), n),
-                show_clause(catch(|| b.last_clause()), n),
-                show_clause(catch(|| b.most_fixed_clause()), n),
-                show_clause(catch(|| b.most_free_clause()), n),
-                show_clause(catch(|| b.necessary_clause()), n),
-                show_bool(catch(|| b.is_clause())),
-                show_bool(catch(|| b.is_valuation())),
-            ];
-            out.case(key, a, &obs);
+            out.case(key, a, &observe_sel(&b, n));
         }
         "C11.rand" | "C11.ncrand" => {
             let b = Bdd::from_string(&a[0]);
             let n = b.num_vars() as usize;
-            let flips = parse_flips(&a[1]);
-            let rv = catch(|| { let mut r = CoinRng::new(flips.clone()); b.random_valuation(&mut r) });
-            let rc = catch(|| { let mut r = CoinRng::new(flips.clone()); b.random_clause(&mut r) });
-            out.case(key, a, &[show_val(rv), show_clause(rc, n)]);
+            out.case(key, a, &observe_rand(&b, n, &parse_flips(&a[1])));
+        }
+        "C11.op" => {
+            let n: usize = a[0].parse().unwrap();
+            match catch(|| apply_op(&a[1], &a[2..])) {
+                None => out.case(key, a, &[s("oppanic")]),
+                Some(b) => {
+                    let mut obs = vec![fmt_bdd(&b)];
+                    obs.extend(observe_sel(&b, n));
+                    out.case(key, a, &obs);
+                }
+            }
+        }
+        "C11.oprand" => {
+            let n: usize = a[0].parse().unwrap();
+            let flips = parse_flips(&a[a.len() - 1]);
+            match catch(|| apply_op(&a[1], &a[2..a.len() - 1])) {
+                None => out.case(key, a, &[s("oppanic")]),
+                Some(b) => {
+                    let mut obs = vec![fmt_bdd(&b)];
+                    obs.extend(observe_rand(&b, n, &flips));
+                    out.case(key, a, &obs);
+                }
+            }
         }
         _ => panic!("unknown key {}", key),
     }
@@ -85,6 +171,174 @@ fn flips_for(rng: &mut Rng64, n: usize) -> String {
     fmt_bools(&v)
 }
 
+/// number of variables of a text-form diagram
+fn n_of(b: &str) -> usize { b.trim_matches('|').split(',').next().unwrap().parse().unwrap() }
+
+/// a function over `n` variables: any of the 2^(2^n) for n <= 3 (uniformly), a structured random one above
+fn some_fn(rng: &mut Rng64, n: usize) -> String {
+    if n <= 3 { fmt_bdd(&bdd_of_tt(n, &tt_from_index(n, rng.below(1u64 << (1u64 << n))))) } else { fmt_bdd(&random_bdd(rng, n)) }
+}
+/// a single cube (possibly a single valuation, possibly the tautology) over `n` variables
+fn some_cube(rng: &mut Rng64, n: usize) -> String {
+    let size = 1usize << n;
+    let mask = match rng.below(3) { 0 => size - 1, _ => rng.next() as usize & (size - 1) };
+    let val = rng.next() as usize & mask;
+    let tt: Vec<bool> = (0..size).map(|i| i & mask == val).collect();
+    fmt_bdd(&bdd_of_tt(n, &tt))
+}
+/// a small function of one or two variables (literal, negated literal, x op y) over `n` variables
+fn some_small(rng: &mut Rng64, n: usize, x: usize) -> String {
+    let y = rng.below(n as u64) as usize;
+    let size = 1usize << n;
+    let bit = |i: usize, k: usize| (i >> (n - 1 - k)) & 1 == 1;
+    let kind = rng.below(7);
+    let tt: Vec<bool> = (0..size).map(|i| match kind {
+        0 => bit(i, x), 1 => !bit(i, x), 2 => bit(i, x) || !bit(i, y), 3 => bit(i, x) && bit(i, y),
+        4 => bit(i, x) != bit(i, y), 5 => !bit(i, y), _ => !bit(i, x) || bit(i, y) }).collect();
+    fmt_bdd(&bdd_of_tt(n, &tt))
+}
+fn some_vars(rng: &mut Rng64, n: usize) -> String {
+    let v: Vec<usize> = (0..n).filter(|_| rng.chance(1, 3)).collect();
+    fmt_usizes(&v)
+}
+fn some_lits(rng: &mut Rng64, n: usize) -> String {
+    let mut v: Vec<String> = vec![];
+    for i in 0..n { if rng.chance(1, 3) { v.push(format!("{}={}", i, if rng.bool() { 1 } else { 0 })); } }
+    if v.is_empty() { s("~") } else { v.join(",") }
+}
+/// one operation case: all deterministic selectors on the result, and (mostly) the random ones too
+fn op_case(rng: &mut Rng64, out: &mut Out, n: usize, op: &str, args: &[String]) {
+    let mut a = vec![n.to_string(), s(op)];
+    a.extend(args.iter().cloned());
+    run("C11.op", &a, out);
+    if rng.chance(2, 3) {
+        a.push(flips_for(rng, n));
+        run("C11.oprand", &a, out);
+    }
+}
+
+/// the stream whose operands are RESULTS of library operations (terminals of such results are where
+/// `set_num_vars` / `rename_variables` write)
+fn gen_ops(thorough: bool, rng: &mut Rng64, out: &mut Out) {
+    // --- substitute, both paths. Exhaustive for n <= 2 (n = 3 too in thorough), sampled above
+    for n in 1..=(if thorough { 3usize } else { 2 }) {
+        let count = 1u64 << (1u64 << n);
+        for tf in 0..count { for x in 0..n { for tg in 0..count {
+            let f = fmt_bdd(&bdd_of_tt(n, &tt_from_index(n, tf)));
+            let g = fmt_bdd(&bdd_of_tt(n, &tt_from_index(n, tg)));
+            if n < 3 { op_case(rng, out, n, "subst", &[f, x.to_string(), g]); }
+            else { run("C11.op", &[n.to_string(), s("subst"), f, x.to_string(), g], out); }
+        } } }
+    }
+    for _ in 0..(if thorough { 0 } else { 2500 }) {
+        let x = rng.below(3) as usize;
+        let (f, g) = (some_fn(rng, 3), some_fn(rng, 3));
+        op_case(rng, out, 3, "subst", &[f, x.to_string(), g]);
+    }
+    for _ in 0..(if thorough { 20000 } else { 800 }) {
+        let n = 4 + rng.below(3) as usize;
+        let x = rng.below(n as u64) as usize;
+        let (f, g) = (some_fn(rng, n), if rng.chance(1, 2) { some_fn(rng, n) } else { some_small(rng, n, x) });
+        op_case(rng, out, n, "subst", &[f, x.to_string(), g]);
+    }
+    // cubes / single valuations with literal-like substituted functions: results that are tautologies,
+    // single valuations and cubes, mostly through the proxy-variable path
+    for _ in 0..(if thorough { 20000 } else { 1200 }) {
+        let n = 1 + rng.below(6) as usize;
+        let x = rng.below(n as u64) as usize;
+        let f = if rng.chance(3, 4) { some_cube(rng, n) } else { some_small(rng, n, x) };
+        let g = some_small(rng, n, x);
+        op_case(rng, out, n, "subst", &[f, x.to_string(), g]);
+    }
+    // --- set_num_vars on a clone: up, up then down, down (the function ignores the trailing variables)
+    for _ in 0..(if thorough { 15000 } else { 900 }) {
+        let k = rng.below(5) as usize;            // variables the function may use
+        let extra = rng.below(4) as usize;        // unused trailing variables of the operand
+        let n = k + extra;
+        let inner = match rng.below(3) { 0 => some_cube(rng, k), _ => some_fn(rng, k) };
+        // re-declare over n variables: same nodes, terminals carry n
+        let t: Vec<String> = inner.trim_matches('|').split('|').enumerate().map(|(i, nd)| {
+            let p: Vec<&str> = nd.split(',').collect();
+            if i < 2 { format!("{},{},{}", n, p[1], p[2]) } else { nd.to_string() } }).collect();
+        let f = format!("|{}|", t.join("|"));
+        let used = f.trim_matches('|').split('|').skip(2).map(|nd| nd.split(',').next().unwrap().parse::<usize>().unwrap() + 1).max().unwrap_or(0);
+        let pick = |rng: &mut Rng64| used + rng.below(8) as usize;
+        let chain: Vec<usize> = match rng.below(4) {
+            0 => vec![n + 1 + rng.below(3) as usize],
+            1 => { let up = n + 1 + rng.below(3) as usize; vec![up, n] }
+            2 => vec![used + rng.below((n - used) as u64 + 1) as usize],
+            _ => vec![pick(rng), pick(rng), pick(rng)],
+        };
+        let last = *chain.last().unwrap();
+        op_case(rng, out, last, "setnv", &[f, fmt_usizes(&chain)]);
+    }
+    // --- rename_variable / rename_variables (only admissible renamings are generated)
+    for _ in 0..(if thorough { 10000 } else { 600 }) {
+        let n = 2 + rng.below(5) as usize;
+        let f = some_fn(rng, n);
+        let b = Bdd::from_string(&f);
+        let support: Vec<usize> = { let mut v: Vec<usize> = b.support_set().iter().map(|x| x.to_index()).collect(); v.sort(); v };
+        let (old, new) = (rng.below(n as u64) as usize, rng.below(n as u64) as usize);
+        let (lo, hi) = (old.min(new), old.max(new));
+        let ok = !support.iter().any(|v| *v > lo && *v < hi) && (old == new || !support.contains(&new));
+        if ok { op_case(rng, out, n, "rename", &[f.clone(), old.to_string(), new.to_string()]); }
+        // the shift used by `substitute`: every variable >= x moves up by one (the last one must be unused)
+        if !support.contains(&(n - 1)) {
+            let x = rng.below(n as u64) as usize;
+            let mut perm: Vec<String> = (x..n - 1).map(|i| format!("{}>{}", i, i + 1)).collect();
+            // a key equal to the variable count names the terminals' stored variable: it must be ignored
+            if rng.chance(1, 3) { perm.push(format!("{}>{}", n, rng.below(n as u64))); }
+            op_case(rng, out, n, "renames", &[f.clone(), if perm.is_empty() { s("~") } else { perm.join(",") }]);
+        }
+        // and its inverse (variable x must be unused)
+        let x = rng.below(n as u64) as usize;
+        if !support.contains(&x) {
+            let perm: Vec<String> = (x + 1..n).map(|i| format!("{}>{}", i, i - 1)).collect();
+            op_case(rng, out, n, "renames", &[f, if perm.is_empty() { s("~") } else { perm.join(",") }]);
+        }
+    }
+    // --- projections, restrictions, picks
+    for _ in 0..(if thorough { 8000 } else { 400 }) {
+        let n = 1 + rng.below(6) as usize;
+        let f = some_fn(rng, n);
+        let x = rng.below(n as u64) as usize;
+        let (v1, v2, v3, l1, l2) = (some_vars(rng, n), some_vars(rng, n), some_vars(rng, n), some_lits(rng, n), some_lits(rng, n));
+        let q = if rng.bool() { "varexists" } else { "varforall" };
+        op_case(rng, out, n, "exists", &[f.clone(), v1]);
+        op_case(rng, out, n, "forall", &[f.clone(), v2]);
+        op_case(rng, out, n, q, &[f.clone(), x.to_string()]);
+        op_case(rng, out, n, "restrict", &[f.clone(), l1]);
+        op_case(rng, out, n, "select", &[f.clone(), l2]);
+        op_case(rng, out, n, "pick", &[f, v3]);
+    }
+    // --- Boolean operators
+    for _ in 0..(if thorough { 8000 } else { 400 }) {
+        let n = rng.below(7) as usize;
+        let (f, g, h) = (some_fn(rng, n), if rng.chance(1, 3) { some_cube(rng, n) } else { some_fn(rng, n) }, some_fn(rng, n));
+        op_case(rng, out, n, "not", &[f.clone()]);
+        let name = *rng.pick(&["and", "or", "xor", "imp", "iff", "and_not"]);
+        op_case(rng, out, n, name, &[f.clone(), g.clone()]);
+        let name2 = if rng.bool() { "and" } else { "or" };
+        op_case(rng, out, n, name2, &[f.clone(), g.clone()]);
+        if rng.chance(1, 3) { op_case(rng, out, n, "ite", &[f, g, h]); }
+    }
+    // --- Bdd::from(valuation): all valuations of <= 4 variables, random ones up to 12
+    for n in 0..=4usize { for i in 0..(1usize << n) { op_case(rng, out, n, "fromval", &[fmt_bools(&val_of_index(n, i))]); } }
+    for _ in 0..(if thorough { 3000 } else { 150 }) {
+        let n = 5 + rng.below(8) as usize;
+        let v: Vec<bool> = (0..n).map(|_| rng.bool()).collect();
+        op_case(rng, out, n, "fromval", &[fmt_bools(&v)]);
+    }
+    // --- threshold functions
+    for _ in 0..(if thorough { 4000 } else { 250 }) {
+        let n = 1 + rng.below(7) as usize;
+        let vars = some_vars(rng, n);
+        let k = rng.below(n as u64 + 2) as usize;
+        let name = if rng.chance(2, 3) { "exactlyk" } else { "uptok" };
+        op_case(rng, out, n, name, &[n.to_string(), k.to_string(), vars]);
+    }
+}
+
 pub fn gen(tier: Tier, rng: &mut Rng64, out: &mut Out) {
     let thorough = tier == Tier::Thorough;
     // the coin generator really yields the recorded booleans for the one call the selectors use
@@ -112,6 +366,8 @@ pub fn gen(tier: Tier, rng: &mut Rng64, out: &mut Out) {
             run("C11.rand", &[b.clone(), s("~")], out);
         }
     }
+    // --- operands that are results of library operations
+    gen_ops(thorough, rng, out);
     // --- n = 4: all 65 536 functions (thorough) or a sample (quick)
     let n4: u64 = if thorough { 65536 } else { 3000 };
     for i in 0..n4 {
